@@ -42,7 +42,8 @@ fn sort_identity(mut values: Vec<Val>) -> Result<Vec<Val>> {
 	// Fast path, identity key getter
 	let sort_type = get_sort_type(&values, |k| k)?;
 	match sort_type {
-		SortKeyType::Number => values.sort_unstable_by_key(|v| match v {
+		// stable: 0 and -0 compare equal but are different values
+		SortKeyType::Number => values.sort_by_key(|v| match v {
 			Val::Num(n) => *n,
 			_ => unreachable!(),
 		}),
@@ -54,7 +55,7 @@ fn sort_identity(mut values: Vec<Val>) -> Result<Vec<Val>> {
 			let mut err = None;
 			// evaluate_compare_op will never return equal on types, which are different from
 			// jsonnet perspective
-			values.sort_unstable_by(|a, b| match evaluate_compare_op(a, b, BinaryOpType::Lt) {
+			values.sort_by(|a, b| match evaluate_compare_op(a, b, BinaryOpType::Lt) {
 				Ok(ord) => ord,
 				Err(e) if err.is_none() => {
 					let _ = err.insert(e);
